@@ -723,12 +723,17 @@ func OrdShutMain(args []string) {
 		if mode == "scaledown" {
 			reps = 2 + r.Intn(2)
 		}
-		db := AProc{Name: "db", Opts: []KV{{"command", "run db"}}}
-		wk := AProc{Name: "worker", Opts: []KV{{"command", "run worker v0"}}, Deps: []KV{{"db", "process_started"}}, Replicas: reps}
-		other := AProc{Name: "other", Opts: []KV{{"command", "run other"}}}
+		// names are unique per history: a command that a request of the previous history launches late (an update that
+		// outlives its shutdown) cannot be mistaken for one of this history
+		dbN, wkN, otN := fmt.Sprintf("db%d", k), fmt.Sprintf("worker%d", k), fmt.Sprintf("other%d", k)
+		db := AProc{Name: dbN, Opts: []KV{{"command", "run db"}}}
+		wk := AProc{Name: wkN, Opts: []KV{{"command", "run worker v0"}}, Deps: []KV{{dbN, "process_started"}}, Replicas: reps}
+		other := AProc{Name: otN, Opts: []KV{{"command", "run other"}}}
+		nfile := 0
 		mkFile := func(procs ...AProc) string {
 			af := AFile{Procs: procs}
-			return writeFile(dir, fmt.Sprintf("ordshut-%d.yaml", r.Int63()), af.Render())
+			nfile++
+			return writeFile(dir, fmt.Sprintf("ordshut-%d-%d.yaml", k, nfile), af.Render())
 		}
 		project, err := load([]string{mkFile(db, wk, other)})
 		if err != nil {
@@ -743,7 +748,7 @@ func OrdShutMain(args []string) {
 		meta := map[int64]string{}
 		app.VerifCommanderFn = func(info app.VerifLaunchInfo) command.Commander {
 			b := fakecmd.Behaviour{ExitMode: "signal", SigCode: -1}
-			if info.Conf.Name == "worker" {
+			if info.Conf.Name == wkN {
 				b.StopLatency = lat
 			}
 			c := fakecmd.New(info.Proc, info.Inst, info.Attempt, nil, b)
@@ -760,12 +765,13 @@ func OrdShutMain(args []string) {
 		go func() { _ = runner.Run(); close(runDone) }()
 		settle()
 		// the removal, in its own goroutine (it waits for the worker to die)
+		victim := r.Intn(reps)
 		remDone := make(chan struct{})
 		go func() {
 			defer close(remDone)
 			switch mode {
 			case "scaledown":
-				_ = runner.ScaleProcess(fmt.Sprintf("worker-%d", r.Intn(reps)), reps-1)
+				_ = runner.ScaleProcess(fmt.Sprintf("%s-%d", wkN, victim), reps-1)
 			case "remove":
 				if p2, e2 := load([]string{mkFile(db, other)}); e2 == nil {
 					_, _ = runner.UpdateProject(p2)
@@ -800,12 +806,22 @@ func OrdShutMain(args []string) {
 		cmds := []map[string]any{}
 		metaMu.Lock()
 		for _, c := range fakecmd.All() {
+			if b := meta[c.Serial]; b != dbN && b != wkN && b != otN {
+				continue // launched by a request of an earlier history
+			}
 			cmds = append(cmds, map[string]any{"serial": c.Serial, "base": meta[c.Serial], "rname": c.Proc, "alive": c.Alive, "signalled": c.Signalled,
 				"launchSeq": c.LaunchSeq, "exitSeq": c.ExitSeq, "sigSeq": c.SigSeq})
 		}
 		metaMu.Unlock()
+		// whatever the removal request started after the shutdown (an update launches the replacement) is stopped now
+		fin := make(chan struct{})
+		go func() { _ = runner.ShutDownProject(); close(fin) }()
+		select {
+		case <-fin:
+		case <-time.After(3 * time.Second):
+		}
 		rec.put(map[string]any{"kind": "ordshut", "id": fmt.Sprintf("ordshut-%d-%d", *seed, k), "mode": mode, "replicas": reps, "latencyTicks": lat,
-			"edges": [][]string{{"worker", "db"}}, "shutSeq": shutSeq, "shutReturned": shutReturned, "runReturned": runReturned, "cmds": cmds})
+			"edges": [][]string{{wkN, dbN}}, "shutSeq": shutSeq, "shutReturned": shutReturned, "runReturned": runReturned, "cmds": cmds})
 		fakecmd.KillAll()
 	}
 	rec.w.Flush()
